@@ -815,6 +815,7 @@ impl World {
             }
             if mode == Mode::Check {
                 self.check_usk_object(k, &opname);
+                self.check_refreshable(k, &opname);
                 for j in 0..self.mpks.len() {
                     let encs = self.menu_under(j, false);
                     self.check_decaps_row(k, &encs);
@@ -898,6 +899,29 @@ impl World {
         self.usks[k].model.held = held;
     }
 
+    /// An issued key (by generation or by an earlier refresh) stays acceptable to refresh: probed
+    /// on a copy of the key with both flags; the master key must not change.
+    fn check_refreshable(&mut self, k: usize, what: &str) {
+        if !self.usks[k].known {
+            return;
+        }
+        let before = ser(&self.msk);
+        for keep in [true, false] {
+            let mut copy = self.usks[k].usk.clone();
+            let r = guarded!(self.cc.refresh_usk(&mut self.msk, &mut copy, keep));
+            self.bump("refreshability_probes");
+            match r {
+                Ok(Ok(())) => {}
+                Ok(Err(e)) => self.fail("C09.r", format!("{what}: the key this call produced is refused by a following refresh(keep={keep}): {e}")),
+                Err(_) => self.fail("C09.p", format!("{what}: refresh of the key this call produced panicked")),
+            }
+        }
+        let after = ser(&self.msk);
+        if after != before && !msk_equal_canon(&before, &after) {
+            self.fail("C09.s", format!("{what}: a refresh changed the master key: {}", msk_diff(&before, &after)));
+        }
+    }
+
     /// After an Ok refresh: must ⊆ held ⊆ may, per right; then the model adopts what is held.
     fn check_refreshed(&mut self, k: usize, keep: bool, pred: &RefreshPrediction, what: &str) {
         let Some((_, got)) = self.decode_usk(k, what) else { return };
@@ -931,12 +955,22 @@ impl World {
                 }
             }
         }
-        // adopt the observed content (known versions only) for later predictions
+        // adopt the observed content (known versions only) for later predictions; what the key
+        // MUST hold stays expected even if it is missing, so that the behavioural clauses
+        // (decaps of the encapsulations it could open before) still fire
         let mut held = BTreeMap::new();
         for (r, vs) in got {
             let v: Vec<Ver> = vs.into_iter().flatten().collect();
             if !v.is_empty() {
                 held.insert(r, v);
+            }
+        }
+        for (r, must) in &pred.must {
+            let e = held.entry(r.clone()).or_insert_with(Vec::new);
+            for v in must {
+                if !e.contains(v) {
+                    e.push(*v);
+                }
             }
         }
         self.usks[k].model.held = held;
